@@ -19,6 +19,7 @@ LEAN = os.path.join(VERIF, "lean")
 BUILD = os.path.join(VERIF, ".build")
 TARGET = os.path.join(BUILD, "target")
 CLI_TARGET = os.path.join(BUILD, "cli-target")
+HELPER_BIN = os.path.join(BUILD, "helper", "copia-corr")
 EVID = os.path.join(VERIF, "evidence")
 REPLAYS = os.path.join(VERIF, "replays")
 KNOWN = os.path.join(VERIF, "known_findings.txt")
@@ -264,6 +265,14 @@ def cargo_build_harness():
         r = run(["cargo", "build", "--release", "--offline", "-q"], cwd=h)
         if r.returncode == 0:
             open(stamp, "w").write(cur)
+            try:
+                # a copy for the black-box runners' helper subcommands (hashes of byte strings, CBOR of requests): still there
+                # when a later tree under test no longer lets the harness compile (cargo removes the stale binary)
+                os.makedirs(os.path.dirname(HELPER_BIN), exist_ok=True)
+                shutil.copy2(os.path.join(TARGET, "release", "copia-corr"), HELPER_BIN + ".new")
+                os.replace(HELPER_BIN + ".new", HELPER_BIN)
+            except OSError:
+                pass
     return r.returncode == 0, r.stdout
 
 
@@ -595,7 +604,12 @@ def bb_runner(pid, tier, seed, rundir, cfg, search_more=False):
     okh, outh = cargo_build_harness()     # helper subcommands (blake3 of byte strings, …)
     if not okh:
         res["broken"].append(f"{pid}/corr/harness-build: " + short(outh[-1500:], 1500))
-        return res
+        if not os.path.exists(HELPER_BIN):
+            return res
+        # the in-process harness no longer compiles against the tree under test (an obligation that no longer checks, reported
+        # above); the black-box search for a failing input still runs — its helper subcommands (hashes of byte strings) come
+        # from the last harness that built and do not involve the code under test
+        res["notes"].append("harness-build failed: black-box helper subcommands taken from the last harness binary that built")
     mod = importlib.import_module(cfg["bb_module"])
 
     def model_run(ops_path):
